@@ -273,12 +273,17 @@ def _guard(fn_case):
                 'tb': traceback.format_exc()[-1500:]}
 
 
-def pool_map(fn, cases, procs=NPROC, chunksize=None):
+def pool_map(fn, cases, procs=NPROC, chunksize=None, fresh_process=False):
+    """fresh_process: every case runs in a newly forked process (no class-level / module-level state of the subject
+    survives from one case to the next)"""
     if not cases:
         return []
-    if procs <= 1 or len(cases) < 4:
+    if not fresh_process and (procs <= 1 or len(cases) < 4):
         return [_guard((fn, c)) for c in cases]
     ctx = multiprocessing.get_context('fork')
+    if fresh_process:
+        with ctx.Pool(max(1, min(procs, len(cases))), maxtasksperchild=1) as pool:
+            return pool.map(_guard, [(fn, c) for c in cases], chunksize=1)
     with ctx.Pool(procs) as pool:
         cs = chunksize or max(1, len(cases) // (procs * 8))
         return pool.map(_guard, [(fn, c) for c in cases], chunksize=cs)
